@@ -40,6 +40,26 @@ func ParseInst(layout string, s *smt.Term) *smt.Term {
 	return smt.UF("tparse_ns_"+layoutID(layout), []string{"String"}, &smt.Term{K: smt.KBV, W: 64}, s)
 }
 
+// ParseFar: the timestamp denotes an instant outside the int64-nanosecond range (before 1678 or after 2262). The
+// model keeps instants as 64-bit nanoseconds: such a timestamp is represented by the saturated value (MinInt64 /
+// MaxInt64), which orders correctly against every in-range instant; what UnixNano() returns for it is undefined.
+func ParseFar(layout string, s *smt.Term) *smt.Term {
+	if s.Const {
+		t, err := time.Parse(layout, s.Str)
+		return smt.Bool(err == nil && (t.Year() < 1678 || t.Year() > 2261))
+	}
+	return smt.UF("tparse_far_"+layoutID(layout), []string{"String"}, &smt.Term{K: smt.KBool}, s)
+}
+
+// farAxiom: Far(s) => Inst(s) saturated
+func (in *Interp) farAxiom(layout string, s *smt.Term) {
+	if s.Const {
+		return
+	}
+	inst := ParseInst(layout, s)
+	in.assumeOnce(smt.Implies(ParseFar(layout, s), smt.Or(smt.Eq(inst, smt.BV(1<<63, 64)), smt.Eq(inst, smt.BV(1<<63-1, 64)))))
+}
+
 // ParseZ: the parsed value is held in UTC (the string spells its zone as "Z" / +00:00) rather than with a zone offset.
 func ParseZ(layout string, s *smt.Term) *smt.Term {
 	if s.Const {
@@ -119,6 +139,8 @@ func init() {
 		ir.Extra["ns"] = ParseInst("2006-01-02T15:04:05Z07:00", s)
 		ir.Extra["empty"] = smt.Eq(s, smt.StrLit(""))
 		ir.Extra["z"] = ParseZ("2006-01-02T15:04:05Z07:00", s)
+		ir.Extra["far"] = ParseFar("2006-01-02T15:04:05Z07:00", s)
+		in.farAxiom("2006-01-02T15:04:05Z07:00", s)
 		in.Assume(smt.Implies(ok, smt.Not(smt.Eq(s, smt.StrLit("")))))
 		return s
 	}
@@ -165,7 +187,8 @@ func init() {
 		in.event("time.Parse layout=%q", lt.Str)
 		ok := ParseOK(lt.Str, s)
 		if in.Branch(ok) {
-			return Tuple{&TimeV{Inst: ParseInst(lt.Str, s), UTC: ParseZ(lt.Str, s), Clock: "parsed"}, nilError()}
+			in.farAxiom(lt.Str, s)
+			return Tuple{&TimeV{Inst: ParseInst(lt.Str, s), UTC: ParseZ(lt.Str, s), Clock: "parsed", Far: ParseFar(lt.Str, s)}, nilError()}
 		}
 		return Tuple{zeroValue(fn.Signature.Results().At(0).Type()), in.opaqueError("timeparse")}
 	}
@@ -251,7 +274,14 @@ func init() {
 		return smt.BVSub(x.Inst, y.Inst)
 	}
 	models["(time.Time).UnixNano"] = func(in *Interp, fn *ssa.Function, a []Value) Value {
-		return timeArg(in, a[0]).Inst
+		x := timeArg(in, a[0])
+		if x.Far != nil && !(x.Far.Const && !x.Far.B) {
+			// outside 1678..2262 the result of UnixNano is undefined (it wraps): an arbitrary value
+			in.X.noteAssumption("time.UnixNano of a timestamp outside the int64-nanosecond range (years 1678..2262): an arbitrary 64-bit value")
+			g := smt.NewVar(symName(in.fresh("unixnano_wrapped")), smt.KBV, 64)
+			return smt.Ite(x.Far, g, x.Inst)
+		}
+		return x.Inst
 	}
 	models["(time.Time).Unix"] = func(in *Interp, fn *ssa.Function, a []Value) Value {
 		x := timeArg(in, a[0])
